@@ -217,12 +217,30 @@ def _same(a, s):
         return True
 
 
-def _enter_env(ctx, mod, n):
+def _cross(configs):
+    """which generator stratum was run in which process-global environment (and which pairs never met)"""
+    table, envs = {}, set()
+    for k, v in configs.items():
+        if k.startswith("cross:"):
+            env, stratum = k[6:].split("|", 1)
+            table.setdefault(stratum, {})[env] = v
+            envs.add(env)
+    never = sorted("%s never ran under %s" % (st, e) for st, row in table.items() for e in envs if e not in row and sum(row.values()) >= 40)
+    return {"strata": len(table), "environments": sorted(envs), "cases": {st: dict(sorted(r.items())) for st, r in sorted(table.items())},
+            "pairs_never_met (strata with >= 40 cases)": never}
+
+
+def _enter_env(ctx, mod, n, force=None):
     """process-global state a caller may legitimately have set; every property must hold in each of them:
     checks switched off, numpy floating-point errors raised instead of warned, the library's logger at DEBUG"""
     toggles = getattr(mod, "ENV_TOGGLES", ("checks_off", "fp_raise", "log_debug"))
-    k = n % 7
-    name = {1: "checks_off", 3: "fp_raise", 5: "log_debug"}.get(k)
+    if force is not None:
+        name = force if force in ("checks_off", "fp_raise", "log_debug") else None
+    else:
+        # a multiplicative hash of the case number, not the number itself: workloads cycle through their strata with small
+        # periods, and n % 7 met only some of them when the period shared a factor with 7
+        k = (((n + 1) * 0x9E3779B1 + ctx.shard * 0x85EBCA6B) & 0xFFFFFFFF) >> 16      # workers must not run in step either
+        name = {1: "checks_off", 3: "fp_raise", 5: "log_debug"}.get(k % 7)
     if name is None or name not in toggles:
         ctx.mon.config("environment:default")
         return None
@@ -299,7 +317,12 @@ def run_shard(prop, tier, seed, shard, nshards, replay=None):
             stopped_early = True
             break
         mon.begin(kind, params)
-        env = _enter_env(ctx, mod, ncase) if replay is None else None
+        env = _enter_env(ctx, mod, ncase, force=None if replay is None else (replay.get("env") or "default"))
+        mon.case_env = env[0] if env else "default"
+        if replay is None:
+            stratum = next((params[k] for k in ("stratum", "strata", "variant", "kind", "class", "cls", "tilts", "dirs", "adp", "disp")
+                            if isinstance(params.get(k), str)), kind)
+            mon.config("cross:%s|%s" % (mon.case_env, stratum))
         ncase += 1
         try:
             mod.CASES[kind](ctx, params)
@@ -376,7 +399,10 @@ def verdict(prop, tier, seed, dumps, problems, wall, nshards):
         if c["monitor_errors"]:
             problems.append("monitor %s raised internally: %s" % (k, c["monitor_errors"][0]))
     floors = mod_meta.get("FLOORS") or {}
+    waived = mon.extra.get("floors_waived", [])      # monitors on functions the tree under test does not have (see C03, C14)
     for m, floor in floors.items():
+        if m in waived:
+            continue
         got = mon.stats.get(m, [0])[0]
         if got < floor:
             problems.append("deciding monitor %s evaluated %d times (< floor %d)" % (m, got, floor))
@@ -426,7 +452,8 @@ def verdict(prop, tier, seed, dumps, problems, wall, nshards):
         "contracts_on_real_functions": contracts_seen,
         "contract_backend": backend,
         "case_kinds": mon._kind_seen,
-        "configurations": dict(sorted(mon.configs.items())),
+        "configurations": dict(sorted((k, v) for k, v in mon.configs.items() if not k.startswith("cross:"))),
+        "environment_x_stratum": _cross(mon.configs),
         "functions_reached": dict(sorted(mon.reached.items())),
         "branches": cov,
         "fp_events": mon.fp_events,
